@@ -303,6 +303,9 @@ func (b *broker) serve(wg *sync.WaitGroup) {
 			reply()
 			if b.script.HangUp && b.script.Reply == "success" && b.proxy == "" {
 				_ = conn.Close()
+				// give the requester time to notice the hang-up before anything else happens: what follows (the
+				// reverse connection) must still be waited for
+				time.Sleep(150 * time.Millisecond)
 			}
 		case ev%2 == 0:
 			i := ev / 2
@@ -741,6 +744,14 @@ func TestC20Permutations(t *testing.T) {
 				}
 			}
 		}
+	}
+	for _, rk := range append([]string{""}, rogueKinds[:3]...) { // success, hang-up, THEN the (rogue and) legitimate connection
+		arr, order := []Arrival{{"legit"}}, []int{-1, 0, 1}
+		if rk != "" {
+			arr, order = []Arrival{{rk}, {"legit"}}, []int{-1, 0, 1, 2, 3}
+		}
+		cases = append(cases, Case{Brokers: []BrokerScript{{Arrivals: arr, Order: order, Reply: "success", HangUp: true}}})
+		classes = append(classes, "perm:hang-up-then-legit")
 	}
 	for _, rk := range rogueKinds { // no legit at all
 		for _, reply := range []string{"success", "failure", "failure-bare", "failure-empty", "none", "garbage"} {
